@@ -245,6 +245,11 @@ def from_arg_table(run):
         if type(n) is not Named or n.name != "hamming":
             run.violation({"kind": "from_arg_alias_does_not_take_precedence_over_name", "got": type(n).__name__,
                            "name_kwarg": getattr(n, "name", None)})
+        # ... whatever the order in which the two keys were written (a JSON object keeps its key order)
+        n = f(W, json.loads('{"name": "hamming", "alias": "verif-named"}'))
+        if type(n) is not Named or n.name != "hamming":
+            run.violation({"kind": "from_arg_alias_does_not_take_precedence_over_name", "got": type(n).__name__,
+                           "name_kwarg": getattr(n, "name", None), "key_order": ["name", "alias"]})
         n = f(W, {"name": "verif-named"})
         if type(n) is not Named or n.name != "default":
             run.violation({"kind": "from_arg_name_as_alias", "got": type(n).__name__})
